@@ -103,6 +103,15 @@ pub fn all() -> Vec<History> {
     let act = |cap: Option<Src>, wcap: Option<WLoc>, script: Vec<Act>| Box::new(ActionSpec { cap, wcap, script });
     v.push(("cleaner_rc", vec![new(0), Act::Register { own: Own::R(0), action: act(None, None, vec![]), dst: 0 }, Act::Register { own: Own::R(0), action: act(None, None, vec![Act::Query]), dst: 1 }, Act::Register { own: Own::R(0), action: act(None, None, vec![]), dst: 2 }, Act::Clean { c: 0 }, Act::Clean { c: 0 }, Act::CDrop { c: 1 }, drop_r(0), Act::Clean { c: 2 }, Act::Clean { c: 0 }]));
     v.push(("cleaner_cycle", vec![new(0), new(1), set(0, 0, 1), set(1, 0, 0), Act::Downgrade { src: Src::R(1), dst: WLoc::WR(0) }, Act::Register { own: Own::R(0), action: act(None, Some(WLoc::WR(0)), vec![Act::Upgrade { src: WLoc::Cap, dst: Dst::Discard }]), dst: 0 }, Act::Register { own: Own::R(0), action: act(None, None, vec![]), dst: 1 }, Act::Clean { c: 1 }, drop_r(0), drop_r(1), Act::CollectQuiet, Act::Clean { c: 0 }, Act::WDrop { dst: WLoc::WR(0) }]));
+    // first registration on a cleaner allocates its map, which can start an automatic collection; a finalizer run by
+    // that collection registers on the very same cleaner
+    v.push(("register_reentered_from_finalizer", vec![
+        new(0), Act::Clone { src: Src::R(0), dst: Dst::G(0) },
+        new_spec(1, vec![Act::Register { own: Own::G(0), action: act(None, None, vec![Act::Query]), dst: 1 }], vec![]), set(1, 0, 1), drop_r(1),
+        clone_r(0, 2), drop_r(2), new(3), clone_r(3, 2), drop_r(2),
+        Act::Config { auto: true, percent: 2, buffered: 1 },
+        Act::Register { own: Own::R(0), action: act(None, None, vec![]), dst: 0 }, Act::Query, Act::Clean { c: 1 }, Act::Clean { c: 0 }, drop_r(0), Act::Drop { dst: Dst::G(0) }, Act::CollectQuiet,
+    ]));
     // every action cleaned (map empty), a new registration, then the stale cleanable is cleaned again: must be a no-op
     v.push(("cleaner_stale_key_after_empty", vec![new(0), Act::Register { own: Own::R(0), action: act(None, None, vec![]), dst: 0 }, Act::Clean { c: 0 }, Act::Register { own: Own::R(0), action: act(None, None, vec![Act::Query]), dst: 1 }, Act::Clean { c: 0 }, Act::Query, Act::Register { own: Own::R(0), action: act(None, None, vec![]), dst: 2 }, Act::Clean { c: 1 }, Act::Clean { c: 2 }, Act::Clean { c: 0 }, Act::Clean { c: 1 }, drop_r(0)]));
     // action that releases the owner of its own cleaner through clean() (F5 shape)
